@@ -7,7 +7,7 @@
  *     ocaml/d_persist.ml prints for the model's ps_trace;
  *   - ps_die_at = k: the process dies (_exit, nothing flushed, no handler runs) immediately
  *     before its k-th operation (0-based), i.e. after exactly k operations;
- *   - ps_bufmode 'L': write streams are fully buffered with a buffer larger than any file the
+ *   - ps_bufmode 'L': write streams are fully buffered with a 2 MiB buffer, larger than any file the
  *     check produces (nothing reaches the kernel before fflush/fclose: the model's ps_pol_lazy);
  *     'E': write streams are unbuffered (every fwrite/fprintf is written through at once: the
  *     model's ps_pol_eager); 'D': the C library's default (the check then compares only the
@@ -42,6 +42,7 @@ static void (*ps_before_death)(void) = NULL;
 
 #define PS_MAXH 4096
 static FILE *ps_hs[PS_MAXH];
+static char *ps_bufs[PS_MAXH];
 static int ps_nh = 0;
 static const char *ps_fnames[6] = {"dyn", "obs", "cnt", "dyn.tmp", "obs.tmp", "cnt.tmp"};
 static const char ps_fcodes[6] = {'d', 'o', 'c', 'D', 'O', 'C'};
@@ -133,10 +134,14 @@ FILE *__wrap_fopen(const char *path, const char *mode) {
   int id = -1;
   if (f && ps_nh < PS_MAXH) {
     id = ps_nh;
+    ps_bufs[ps_nh] = NULL;
     ps_hs[ps_nh++] = f;
     if (mode[0] != 'r') {
-      if (ps_bufmode == 'L') setvbuf(f, NULL, _IOFBF, 1 << 22);
-      else if (ps_bufmode == 'E') setvbuf(f, NULL, _IONBF, 0);
+      if (ps_bufmode == 'L') {
+        /* glibc ignores the size when no buffer is given: hand it a real one */
+        ps_bufs[id] = (char *)malloc(1 << 21);
+        setvbuf(f, ps_bufs[id], _IOFBF, 1 << 21);
+      } else if (ps_bufmode == 'E') setvbuf(f, NULL, _IONBF, 0);
     }
   }
   if (f) ps_logf("o%c%s=%d", ps_fcodes[c], mode, id);
@@ -227,6 +232,8 @@ int __wrap_fclose(FILE *f) {
   ps_tick();
   int r = __real_fclose(f);
   ps_hs[h] = NULL;
+  free(ps_bufs[h]);
+  ps_bufs[h] = NULL;
   ps_logf("c%d=%d", h, r);
   return r;
 }
